@@ -6,7 +6,7 @@ import itertools
 from fractions import Fraction as Fr
 from common import P1, P2, PR
 
-ACTS = ["a", "b", "c", "d", "e", "alfa", "beta", "go", "stay", " "]
+ACTS = ["a", "b", "c", "d", "e", "alfa", "beta", "go", "stay", " ", ""]   # "" is a legal (falsy) label
 
 
 def _weights(rng, m, dens):
@@ -154,25 +154,80 @@ def zero_rewards(game):
     return g
 
 
-def twin_games(games, rng, count):
+def extra_families(rng, base, count):
+    """the families that came out of the seeded-change rounds, `count` games each, derived from `base` (games whose reward
+    loop terminates): orphan states without a losing state; twins spelt with a shared list object (same owner / other
+    owner); two final states listed in descending order"""
+    base = [gm for gm in base if gm[1].get("style") in ("stopping", "exact")]
+    return (orphan_games(rng, count) + twin_games(base, rng, count) + twin_games(base, rng, count, cross=True)
+            + two_final_games(base, rng, count))
+
+
+def orphan_games(rng, count):
+    """small acyclic games WITHOUT a losing state (every state reaches the final state with probability 1, so the
+    smallest reported probability is positive) that also contain one or two 'orphan' states: Player-2 / probabilistic
+    states with a positive reward and real transitions that no transition points to. With pruning they are emptied,
+    without pruning they keep their value - the two modes of such a game differ only there."""
+    out = []
+    for _ in range(count):
+        k = rng.randint(2, 5)                       # inner states 1..k, then F = k+1, then the orphans
+        n = k + 2
+        F = k + 1
+        players, rewards, tl = [], [], []
+        for s in range(k + 1):
+            kind = "Player 1" if s == 0 and rng.random() < 0.6 else rng.choice(["Player 1", "Player 2", "Probabilistic"])
+            later = list(range(s + 1, F + 1))
+            m = min(len(later), rng.randint(1, 3))
+            ds = rng.sample(later, m)
+            if kind == "Probabilistic":
+                ws = [[1.0], [0.5, 0.5], [0.25, 0.5, 0.25]][m - 1]
+                tl.append(list(zip(ws, ds)))
+            else:
+                tl.append(list(zip(rng.sample(ACTS[:9], m), ds)))
+            players.append(kind)
+            rewards.append(rng.choice([0, 1, 2, 5]))
+        players.append("Probabilistic"); rewards.append(0); tl.append([(1, F)])
+        for _o in range(rng.randint(1, 2)):
+            kind = rng.choice(["Player 2", "Probabilistic"])
+            ds = rng.sample(range(1, F + 1), min(2, F))
+            tl.append(list(zip([0.5, 0.5][:len(ds)] if len(ds) == 2 else [1.0], ds)) if kind == "Probabilistic"
+                      else list(zip(rng.sample(ACTS[:9], len(ds)), ds)))
+            players.append(kind); rewards.append(rng.choice([1, 3, 5]))
+        fr = [[Fr(w) for w, _ in row] if kd == "Probabilistic" else None for kd, row in zip(players, tl)]
+        out.append((dict(players=players, rewards=rewards, transition_list=tl, final_states=[F]),
+                    dict(style="corpus", orphan=True, fr=fr)))
+    return out
+
+
+def twin_games(games, rng, count, cross=False):
     """for `count` of the given (game, meta): append a state t' that copies the owner and the transition list of a
-    non-Player-1 state t, has reward 0 and no predecessor (variant 0), or whose only predecessor is a further new
+    non-Player-1 state t (cross=True: of a player state, the copy owned by the other player), has reward 0 and no predecessor (variant 0), or whose only predecessor is a further new
     predecessor-less probabilistic state (variant 1: t' is dropped in the second round of prune_states). meta gets
     share=True: the harness spells the description with ONE list object for equal rows, so a solver that empties a
     dropped state's list in place would empty t's as well."""
     out = []
-    pool = [gm for gm in games if any(p != "Player 1" and row for p, row in zip(gm[0]["players"], gm[0]["transition_list"]))]
+    ok = (lambda p: p != "Probabilistic") if cross else (lambda p: p != "Player 1")
+    pool = [gm for gm in games if any(ok(p) and row for p, row in zip(gm[0]["players"], gm[0]["transition_list"]))]
     rng.shuffle(pool)
     for k, (g, m) in enumerate(pool[:count]):
-        cand = [i for i, (p, row) in enumerate(zip(g["players"], g["transition_list"])) if p != "Player 1" and row]
+        cand = [i for i, (p, row) in enumerate(zip(g["players"], g["transition_list"])) if ok(p) and row]
         t = rng.choice(cand)
-        h = dict(players=list(g["players"]) + [g["players"][t]], rewards=list(g["rewards"]) + [0],
+        owner = g["players"][t]
+        h = dict(players=list(g["players"]) + [owner], rewards=list(g["rewards"]) + [0],
                  transition_list=[list(r) for r in g["transition_list"]] + [list(g["transition_list"][t])],
                  final_states=list(g["final_states"]))
+        mm = dict(m, share=True, twin=t)
+        if "fr" in mm:
+            mm["fr"] = list(mm["fr"]) + [mm["fr"][t]]
         if k % 2:
             n = len(h["players"])
             h["players"].append("Probabilistic"); h["rewards"].append(0); h["transition_list"].append([(1, n - 1)])
-        out.append((h, dict(m, share=True, twin=t)))
+            if "fr" in mm:
+                mm["fr"] = mm["fr"] + [[Fr(1)]]
+        if cross:
+            # the copy belongs to the OTHER player: one list object then serves a Player-1 and a Player-2 state
+            h["players"][len(g["players"])] = "Player 2" if owner == "Player 1" else "Player 1"
+        out.append((h, mm))
     return out
 
 
